@@ -12,9 +12,11 @@
    `aexpr` (Combiners/Lawful.v) = every accumulator expression create / add_input / merge /
    build_from_group. *)
 From Coq Require Import List ZArith QArith Bool Lia Sorted.
-From IB Require Import Combiners.Lawful Combiners.TDigest Combiners.KMV.
+From IB Require Import Combiners.Lawful Combiners.TDigest Combiners.KMV Combiners.SketchPipe
+                       Combiners.DistinctHelpers.
 From IB Require Import Proofs.TDigestBase Proofs.TDigestInv Proofs.TDigestQuantile
-                       Proofs.TDigestWitness Proofs.KMVProofs.
+                       Proofs.TDigestWitness Proofs.KMVProofs Proofs.SketchPipeProofs
+                       Proofs.SketchInstances Proofs.TDigestCdf Proofs.DistinctHelpersProofs.
 Import ListNotations.
 Close Scope Q_scope.
 
@@ -241,6 +243,88 @@ Section KMVStatements.
       lawful (kmv_combiner ltb eqb k) (krep ltb eqb (Nat.max k 4))
              (fun m o => o = kmv_spec ltb eqb (Nat.max k 4) m).
   Proof. exact (kmv_lawful ltb eqb ltb_irrefl ltb_trans ltb_total eqb_eq). Qed.
+
+  (* the same specification computed by merge sort + removal of adjacent duplicates (what the
+     correspondence check evaluates for sketch sizes in the thousands) *)
+  Theorem c15_kmv_usort_fast :
+    forall l : list R, usort_fast ltb eqb l = usort ltb eqb l.
+  Proof. exact (usort_fast_eq ltb eqb ltb_irrefl ltb_trans ltb_total eqb_eq). Qed.
+
+  Theorem c15_kmv_fast_spec :
+    forall (k : nat) (e : aexpr R),
+      kmv_finish (aeval (kmv_combiner ltb eqb k) e)
+      = kmv_fast ltb eqb (Nat.max k 4) (avalues e).
+  Proof. exact (kmv_finish_fast ltb eqb ltb_irrefl ltb_trans ltb_total eqb_eq). Qed.
+
+  (* every sketch size above the number of distinct ranks gives the same, exact, answer: nothing
+     may depend on how large an oversized k is *)
+  Theorem c15_kmv_oversized_k :
+    forall (k1 k2 : nat) (e : aexpr R),
+      length (usort ltb eqb (avalues e)) < Nat.max k1 4 ->
+      length (usort ltb eqb (avalues e)) < Nat.max k2 4 ->
+      kmv_finish (aeval (kmv_combiner ltb eqb k1) e)
+      = kmv_finish (aeval (kmv_combiner ltb eqb k2) e).
+  Proof. exact (kmv_oversized_k ltb eqb ltb_irrefl ltb_trans ltb_total eqb_eq). Qed.
+
+  (* ---- the helpers of src/helpers/distinct.rs and the combine_* entry points, over ANY number
+     of partitions, any fan-out, lifted or not (model: Combiners/SketchPipe.v) ---- *)
+  Variable K : Type.
+  Variable keqb : K -> K -> bool.
+  Hypothesis keqb_eq : forall a b, keqb a b = true <-> a = b.
+
+  (* combine_globally / combine_globally_lifted with KMVApproxDistinctCount::new(k) *)
+  Theorem c15_kmv_combine_globally_spec :
+    forall (k : nat) (lifted : bool) (fan parts : nat) (ranks : list R),
+      combine_globally (kmv_combiner ltb eqb k) lifted fan parts ranks
+      = kmv_spec ltb eqb (Nat.max k 4) ranks.
+  Proof. exact (kmv_global_spec ltb eqb ltb_irrefl ltb_trans ltb_total eqb_eq). Qed.
+
+  (* PCollection::approx_distinct_count(k) *)
+  Theorem c15_approx_distinct_count_spec :
+    forall (k parts : nat) (ranks : list R),
+      approx_distinct_count ltb eqb k parts ranks = kmv_spec ltb eqb (Nat.max k 4) ranks.
+  Proof. exact (adc_spec ltb eqb ltb_irrefl ltb_trans ltb_total eqb_eq). Qed.
+
+  (* PCollection::approx_distinct_count_per_key(k): one output per key that occurs, and it is
+     the specification of exactly that key's ranks *)
+  Theorem c15_approx_distinct_count_per_key_spec :
+    forall (k : nat) (key : K) (parts : nat) (rows : list (K * R)),
+      match approx_distinct_count_per_key ltb eqb keqb k key parts rows with
+      | Some o => In key (map fst rows) /\
+                  o = kmv_spec ltb eqb (Nat.max k 4) (mine keqb key rows)
+      | None => ~ In key (map fst rows)
+      end.
+  Proof. exact (adck_spec ltb eqb keqb ltb_irrefl ltb_trans ltb_total eqb_eq keqb_eq). Qed.
+
+  (* ... hence exact while the key has fewer distinct ranks than the sketch size, for EVERY
+     sketch size (no hidden cap on the per-key state) *)
+  Theorem c15_per_key_exact_below_k :
+    forall (k : nat) (key : K) (parts : nat) (rows : list (K * R)),
+      In key (map fst rows) ->
+      length (usort ltb eqb (mine keqb key rows)) < Nat.max k 4 ->
+      approx_distinct_count_per_key ltb eqb keqb k key parts rows
+      = Some (KCount (length (usort ltb eqb (mine keqb key rows)))).
+  Proof. exact (adck_exact_below_k ltb eqb keqb ltb_irrefl ltb_trans ltb_total eqb_eq keqb_eq). Qed.
+
+  (* the twins agree: per key, the per-key helper returns what the global helper returns on that
+     key's values, whatever the two partitionings *)
+  Theorem c15_distinct_count_twins_agree :
+    forall (k : nat) (key : K) (parts parts' : nat) (rows : list (K * R)),
+      In key (map fst rows) ->
+      approx_distinct_count_per_key ltb eqb keqb k key parts rows
+      = Some (approx_distinct_count ltb eqb k parts' (mine keqb key rows)).
+  Proof. exact (adc_twins_agree ltb eqb keqb ltb_irrefl ltb_trans ltb_total eqb_eq keqb_eq). Qed.
+
+  (* combine_values_lifted over hand-grouped (key, Vec<value>) records: ALL records of a key
+     count, also several inside one partition *)
+  Theorem c15_kmv_lifted_groups_spec :
+    forall (k : nat) (key : K) (parts : nat) (recs : list (K * list R)),
+      match combine_values_lifted (kmv_combiner ltb eqb k) keqb key parts recs with
+      | Some o => In key (map fst recs) /\
+                  o = kmv_spec ltb eqb (Nat.max k 4) (concat (mine_groups keqb key recs))
+      | None => ~ In key (map fst recs)
+      end.
+  Proof. exact (kmv_lifted_groups_spec ltb eqb keqb ltb_irrefl ltb_trans ltb_total eqb_eq keqb_eq). Qed.
 End KMVStatements.
 
 (* non-vacuity: integers as ranks *)
@@ -286,3 +370,390 @@ Example c15_kmv_lawful_ex :
   lawful (kmv_combiner Z.ltb Z.eqb 2) (krep Z.ltb Z.eqb 4)
          (fun m o => o = kmv_spec Z.ltb Z.eqb 4 m).
 Proof. exact (c15_kmv_lawful Z Z.ltb Z.eqb zltb_irrefl zltb_trans zltb_total Z.eqb_eq 2). Qed.
+
+Example c15_kmv_usort_fast_ex :
+  usort_fast Z.ltb Z.eqb [9; 2; 9; 7; 2; 11; 7]%Z = [2; 7; 9; 11]%Z.
+Proof. reflexivity. Qed.
+
+Example c15_kmv_fast_spec_ex :
+  kmv_fast Z.ltb Z.eqb 4 (avalues ex_e1) = KEstimate 4 5%Z /\
+  kmv_fast Z.ltb Z.eqb 8 (avalues ex_e1) = KCount 6.
+Proof. split; reflexivity. Qed.
+
+Example c15_kmv_oversized_k_ex :
+  length (usort Z.ltb Z.eqb (avalues ex_e1)) < Nat.max 7 4 /\
+  length (usort Z.ltb Z.eqb (avalues ex_e1)) < Nat.max 100 4 /\
+  kmv_finish (aeval (kmv_combiner Z.ltb Z.eqb 7) ex_e1)
+  = kmv_finish (aeval (kmv_combiner Z.ltb Z.eqb 100) ex_e1).
+Proof. split; [cbn; lia|]. split; [cbn; lia | reflexivity]. Qed.
+
+(* (key, rank) rows: key 1 has the ranks 5, 5, 9, 3; key 2 has 7, 1; key 3 has 4 *)
+Definition ex_rows : list (Z * Z) := [(1, 5); (2, 7); (1, 5); (1, 9); (2, 1); (1, 3); (3, 4)]%Z.
+(* hand-grouped records: key 1 occurs in three records *)
+Definition ex_recs : list (Z * list Z) := [(1, [5; 9]); (2, [7]); (1, [3; 5]); (1, [11; 2])]%Z.
+
+Example c15_kmv_combine_globally_spec_ex :
+  combine_globally (kmv_combiner Z.ltb Z.eqb 4) true 2 3 (map snd ex_rows) = KEstimate 4 5%Z /\
+  kmv_spec Z.ltb Z.eqb 4 (map snd ex_rows) = KEstimate 4 5%Z.
+Proof. split; reflexivity. Qed.
+
+Example c15_approx_distinct_count_spec_ex :
+  approx_distinct_count Z.ltb Z.eqb 4 3 (map snd ex_rows) = KEstimate 4 5%Z /\
+  approx_distinct_count Z.ltb Z.eqb 9 3 (map snd ex_rows) = KCount 6.
+Proof. split; reflexivity. Qed.
+
+Example c15_approx_distinct_count_per_key_spec_ex :
+  approx_distinct_count_per_key Z.ltb Z.eqb Z.eqb 4 1%Z 2 ex_rows = Some (KCount 3) /\
+  approx_distinct_count_per_key Z.ltb Z.eqb Z.eqb 4 5%Z 2 ex_rows = None.
+Proof. split; reflexivity. Qed.
+
+Example c15_per_key_exact_below_k_ex :
+  In 1%Z (map fst ex_rows) /\
+  length (usort Z.ltb Z.eqb (mine Z.eqb 1%Z ex_rows)) < Nat.max 4 4 /\
+  approx_distinct_count_per_key Z.ltb Z.eqb Z.eqb 4 1%Z 3 ex_rows = Some (KCount 3).
+Proof. split; [left; reflexivity|]. split; [cbn; lia | reflexivity]. Qed.
+
+Example c15_distinct_count_twins_agree_ex :
+  approx_distinct_count_per_key Z.ltb Z.eqb Z.eqb 4 1%Z 3 ex_rows
+  = Some (approx_distinct_count Z.ltb Z.eqb 4 2 (mine Z.eqb 1%Z ex_rows)).
+Proof. reflexivity. Qed.
+
+Example c15_kmv_lifted_groups_spec_ex :
+  combine_values_lifted (kmv_combiner Z.ltb Z.eqb 4) Z.eqb 1%Z 1 ex_recs = Some (KEstimate 4 9%Z) /\
+  kmv_spec Z.ltb Z.eqb 4 (concat (mine_groups Z.eqb 1%Z ex_recs)) = KEstimate 4 9%Z.
+Proof. split; reflexivity. Qed.
+
+(* ================================================================ pipelines, generic *)
+
+(* VecOpsImpl::split / the partition count of exec_par lose and duplicate nothing *)
+Theorem c15_partitioning_complete :
+  forall (A : Type) (l : list A) (parts : nat), concat (source_parts l parts) = l.
+Proof. exact source_parts_concat. Qed.
+
+Example c15_partitioning_complete_ex :
+  source_parts ex_rows 3
+  = [[(1, 5); (2, 7); (1, 5)]; [(1, 9); (2, 1); (1, 3)]; [(3, 4)]]%Z.
+Proof. reflexivity. Qed.
+
+(* For EVERY lawful combiner (Combiners/Lawful.v) the three entry points give the mathematical
+   output: of all rows (global), of exactly the key's values (per key), of the values of all the
+   key's records (lifted, hand-grouped) -- any partition count, any fan-out, lifted or not. *)
+Theorem c15_combine_globally_lawful :
+  forall (V A B : Type) (c : combiner V A B) (R : A -> list V -> Prop)
+         (spec : list V -> B -> Prop),
+    lawful c R spec ->
+    forall (lifted : bool) (fan parts : nat) (rows : list V),
+      spec rows (combine_globally c lifted fan parts rows).
+Proof. exact (@combine_globally_spec). Qed.
+
+Theorem c15_combine_values_lawful :
+  forall (V A B : Type) (c : combiner V A B) (R : A -> list V -> Prop)
+         (spec : list V -> B -> Prop),
+    lawful c R spec ->
+    forall (K : Type) (keqb : K -> K -> bool),
+      (forall a b, keqb a b = true <-> a = b) ->
+      forall (key : K) (parts : nat) (rows : list (K * V)),
+        match combine_values c keqb key parts rows with
+        | Some o => In key (map fst rows) /\ spec (mine keqb key rows) o
+        | None => ~ In key (map fst rows)
+        end.
+Proof. exact (@combine_values_spec). Qed.
+
+Theorem c15_combine_values_lifted_lawful :
+  forall (V A B : Type) (c : combiner V A B) (R : A -> list V -> Prop)
+         (spec : list V -> B -> Prop),
+    lawful c R spec ->
+    forall (K : Type) (keqb : K -> K -> bool),
+      (forall a b, keqb a b = true <-> a = b) ->
+      forall (key : K) (parts : nat) (recs : list (K * list V)),
+        match combine_values_lifted c keqb key parts recs with
+        | Some o => In key (map fst recs) /\ spec (concat (mine_groups keqb key recs)) o
+        | None => ~ In key (map fst recs)
+        end.
+Proof. exact (@combine_values_lifted_spec). Qed.
+
+Definition ex_kmv_lawful :=
+  c15_kmv_lawful Z Z.ltb Z.eqb zltb_irrefl zltb_trans zltb_total Z.eqb_eq 4.
+
+Example c15_combine_globally_lawful_ex :
+  combine_globally (kmv_combiner Z.ltb Z.eqb 4) false 0 2 (map snd ex_rows)
+  = kmv_spec Z.ltb Z.eqb 4 (map snd ex_rows).
+Proof. exact (c15_combine_globally_lawful _ _ _ _ _ _ ex_kmv_lawful false 0 2 (map snd ex_rows)). Qed.
+
+Example c15_combine_values_lawful_ex :
+  combine_values (kmv_combiner Z.ltb Z.eqb 4) Z.eqb 2%Z 2 ex_rows = Some (KCount 2).
+Proof. reflexivity. Qed.
+
+Example c15_combine_values_lifted_lawful_ex :
+  combine_values_lifted (kmv_combiner Z.ltb Z.eqb 4) Z.eqb 1%Z 2 ex_recs = Some (KEstimate 4 9%Z).
+Proof. reflexivity. Qed.
+
+(* ================================================================ t-digest through pipelines *)
+
+(* ApproxQuantiles::new(qs, c) and ApproxMedian::new(c) are lawful: the accumulator satisfies the
+   digest invariant for the finite inputs; every estimate is NaN (no finite input) or a rational
+   between the smallest and the largest finite input *)
+Theorem c15_quantiles_lawful :
+  forall (qs : list X) (c : X), lawful (aq_combiner xarith qs c) td_R (aq_spec qs).
+Proof. exact aq_lawful. Qed.
+
+Theorem c15_median_lawful :
+  forall c : X, lawful (am_combiner xarith c) td_R am_spec.
+Proof. exact am_lawful. Qed.
+
+Definition ex_xrows : list X := [Fin 3; NaN; Fin 1; PInf; Fin 2; Fin 10; Fin 4].
+Definition ex_qs : list X := [Fin 0; Fin (1 # 2); Fin 1].
+Definition xlist_eqb (a b : list X) : bool :=
+  (length a =? length b)%nat && forallb (fun p => xeqb (fst p) (snd p)) (combine a b).
+
+Example c15_quantiles_lawful_ex :
+  xlist_eqb (c_finish (aq_combiner xarith ex_qs (Fin 100))
+               (c_merge (aq_combiner xarith ex_qs (Fin 100))
+                  (c_build (aq_combiner xarith ex_qs (Fin 100)) [Fin 3; NaN; Fin 1])
+                  (fold_acc (aq_combiner xarith ex_qs (Fin 100)) [PInf; Fin 2; Fin 10; Fin 4])))
+            [Fin 1; Fin (11 # 2); Fin 10] = true.
+Proof. vm_compute. reflexivity. Qed.
+
+Example c15_median_lawful_ex :
+  xeqb (c_finish (am_combiner xarith (Fin 100)) (fold_acc (am_combiner xarith (Fin 100)) ex_xrows))
+       (Fin (11 # 2)) = true.
+Proof. vm_compute. reflexivity. Qed.
+
+(* from_vec(rows).combine_globally(_lifted)(ApproxQuantiles::new(qs, c), fanout): one estimate per
+   requested q, each inside the range of the finite rows -- any partition count, any fan-out *)
+Theorem c15_pipeline_quantiles_in_range :
+  forall (qs : list X) (c : X) (lifted : bool) (fan parts : nat) (rows : list X),
+    aq_spec qs rows (combine_globally (aq_combiner xarith qs c) lifted fan parts rows).
+Proof. exact quantiles_global_in_range. Qed.
+
+Example c15_pipeline_quantiles_in_range_ex :
+  xlist_eqb (combine_globally (aq_combiner xarith ex_qs (Fin 100)) true 2 3 ex_xrows)
+            [Fin 1; Fin (11 # 2); Fin 10] = true /\
+  fin_inputs ex_xrows = [(3, 1); (1, 1); (2, 1); (10, 1); (4, 1)]%Q.
+Proof. split; [vm_compute; reflexivity | reflexivity]. Qed.
+
+Theorem c15_pipeline_median_in_range :
+  forall (c : X) (lifted : bool) (fan parts : nat) (rows : list X),
+    am_spec rows (combine_globally (am_combiner xarith c) lifted fan parts rows).
+Proof. exact median_global_in_range. Qed.
+
+Example c15_pipeline_median_in_range_ex :
+  xeqb (combine_globally (am_combiner xarith (Fin 100)) false 0 2 ex_xrows) (Fin (11 # 2)) = true.
+Proof. vm_compute. reflexivity. Qed.
+
+(* ... per key (combine_values; group_by_key().combine_values_lifted is planned as this) ... *)
+Theorem c15_pipeline_quantiles_per_key_in_range :
+  forall (K : Type) (keqb : K -> K -> bool), (forall a b, keqb a b = true <-> a = b) ->
+  forall (qs : list X) (c : X) (key : K) (parts : nat) (rows : list (K * X)),
+    match combine_values (aq_combiner xarith qs c) keqb key parts rows with
+    | Some o => In key (map fst rows) /\ aq_spec qs (mine keqb key rows) o
+    | None => ~ In key (map fst rows)
+    end.
+Proof. exact (@quantiles_per_key_in_range). Qed.
+
+Theorem c15_pipeline_median_per_key_in_range :
+  forall (K : Type) (keqb : K -> K -> bool), (forall a b, keqb a b = true <-> a = b) ->
+  forall (c : X) (key : K) (parts : nat) (rows : list (K * X)),
+    match combine_values (am_combiner xarith c) keqb key parts rows with
+    | Some o => In key (map fst rows) /\ am_spec (mine keqb key rows) o
+    | None => ~ In key (map fst rows)
+    end.
+Proof. exact (@median_per_key_in_range). Qed.
+
+Definition ex_xkeyed : list (Z * X) :=
+  [(1, Fin 3); (2, NaN); (1, Fin 1); (1, PInf); (2, Fin 2); (1, Fin 10); (2, NInf)]%Z.
+
+Example c15_pipeline_quantiles_per_key_in_range_ex :
+  match combine_values (aq_combiner xarith ex_qs (Fin 100)) Z.eqb 1%Z 2 ex_xkeyed with
+  | Some o => xlist_eqb o [Fin 1; Fin (11 # 2); Fin 10]
+  | None => false
+  end = true.
+Proof. vm_compute. reflexivity. Qed.
+
+Example c15_pipeline_median_per_key_in_range_ex :
+  match combine_values (am_combiner xarith (Fin 100)) Z.eqb 2%Z 2 ex_xkeyed with
+  | Some o => xeqb o (Fin 2)
+  | None => false
+  end = true.
+Proof. vm_compute. reflexivity. Qed.
+
+(* ... and over hand-grouped (key, Vec<value>) records: the values of ALL the key's records *)
+Theorem c15_pipeline_quantiles_lifted_groups_in_range :
+  forall (K : Type) (keqb : K -> K -> bool), (forall a b, keqb a b = true <-> a = b) ->
+  forall (qs : list X) (c : X) (key : K) (parts : nat) (recs : list (K * list X)),
+    match combine_values_lifted (aq_combiner xarith qs c) keqb key parts recs with
+    | Some o => In key (map fst recs) /\ aq_spec qs (concat (mine_groups keqb key recs)) o
+    | None => ~ In key (map fst recs)
+    end.
+Proof. exact (@quantiles_lifted_groups_in_range). Qed.
+
+Definition ex_xrecs : list (Z * list X) :=
+  [(1, [Fin 3; Fin 8]); (2, [NaN]); (1, [Fin 1; PInf]); (1, [Fin 10])]%Z.
+
+Example c15_pipeline_quantiles_lifted_groups_in_range_ex :
+  match combine_values_lifted (aq_combiner xarith ex_qs (Fin 100)) Z.eqb 1%Z 1 ex_xrecs with
+  | Some o => xlist_eqb o [Fin 1; Fin (11 # 2); Fin 10]   (* q = 0 / 1: min / max over ALL records *)
+  | None => false
+  end = true /\
+  match combine_values_lifted (aq_combiner xarith ex_qs (Fin 100)) Z.eqb 2%Z 1 ex_xrecs with
+  | Some [NaN; NaN; NaN] => true                          (* a key without a finite value *)
+  | _ => false
+  end = true.
+Proof. split; vm_compute; reflexivity. Qed.
+
+(* ApproxQuantiles::five_number_summary(c): [min, q1, median, q3, max] with the exact minimum
+   first, the maximum last and the quartiles in between *)
+Theorem c15_five_number_summary :
+  forall (p : prog X), wf_prog p -> inputs p <> [] ->
+    exists lo hi q1 q2 q3 hi',
+      aq_finish xarith (qs_five_number xarith) (run xarith p)
+      = [Fin lo; Fin q1; Fin q2; Fin q3; Fin hi'] /\
+      is_lo lo (inputs p) /\ is_hi hi (inputs p) /\ (hi' == hi)%Q /\
+      (lo <= q1 <= hi)%Q /\ (lo <= q2 <= hi)%Q /\ (lo <= q3 <= hi)%Q.
+Proof. exact five_number_summary_spec. Qed.
+
+Definition ex_five : prog X :=
+  PAdd (PAdd (PAdd (PAdd (PAdd (PNew (Fin 100)) (Fin 4)) (Fin 1)) (Fin 3)) (Fin 2)) (Fin 5).
+
+Example c15_five_number_summary_ex :
+  wf_prog ex_five /\ inputs ex_five <> [] /\
+  xlist_eqb (aq_finish xarith (qs_five_number xarith) (run xarith ex_five))
+            [Fin 1; Fin (4 # 3); Fin 3; Fin (14 # 3); Fin 5] = true.
+Proof.
+  split; [vm_compute; tauto|]. split; [vm_compute; discriminate | vm_compute; reflexivity].
+Qed.
+
+(* ================================================================ cdf, merge, median twins *)
+
+(* TDigest::cdf: 0 for the empty digest and below the minimum, 1 from the maximum on -- in every
+   arithmetic instance *)
+Theorem c15_cdf_ends :
+  forall (T : Type) (A : arith T) (d : digest T) (x : T),
+    (d_cents d = [] -> td_cdf A d x = a_zero A) /\
+    (a_ltb A x (d_min d) = true -> td_cdf A d x = a_zero A) /\
+    (d_cents d <> [] -> a_ltb A x (d_min d) = false -> a_leb A (d_max d) x = true ->
+     td_cdf A d x = a_one A).
+Proof. exact cdf_ends. Qed.
+
+Example c15_cdf_ends_ex :
+  td_cdf xarith (run xarith ex_five) (Fin (1 # 2)) = Fin 0 /\
+  td_cdf xarith (run xarith ex_five) (Fin 5) = Fin 1 /\
+  td_cdf xarith (run xarith (PNew (Fin 100))) (Fin 3) = Fin 0.
+Proof. repeat split. Qed.
+
+(* ... and always a rational in [0, 1], for every probe (also NaN / infinite) and every digest
+   produced by new / add / add_weighted(weight >= 1) / merge / compress *)
+Theorem c15_cdf_unit_interval :
+  forall (p : prog X) (x : X), wf_prog p ->
+    exists r, td_cdf xarith (run xarith p) x = Fin r /\ (0 <= r <= 1)%Q.
+Proof. exact prog_cdf_unit_interval. Qed.
+
+Example c15_cdf_unit_interval_ex :
+  xeqb (td_cdf xarith (run xarith (PCompress ex_five)) (Fin (5 # 2))) (Fin (13 # 20)) = true /\
+  xeqb (td_cdf xarith (run xarith ex_five) NaN) (Fin 1) = true.
+Proof. split; vm_compute; reflexivity. Qed.
+
+(* merging an empty digest is the identity (any arithmetic) *)
+Theorem c15_merge_empty :
+  forall (T : Type) (A : arith T) (d o : digest T),
+    td_is_empty A o = true -> td_merge A d o = d.
+Proof. exact merge_empty. Qed.
+
+Example c15_merge_empty_ex :
+  td_is_empty xarith (run xarith (PAdd (PNew (Fin 7)) NaN)) = true /\
+  td_merge xarith (run xarith ex_five) (run xarith (PAdd (PNew (Fin 7)) NaN)) = run xarith ex_five.
+Proof. split; reflexivity. Qed.
+
+(* ApproxQuantiles::median(c) and ApproxMedian::new(c) give the same number (any arithmetic) *)
+Theorem c15_median_twins :
+  forall (T : Type) (A : arith T) (d : digest T),
+    aq_finish A (qs_median A) d = [am_finish A d].
+Proof. exact median_twins. Qed.
+
+Example c15_median_twins_ex :
+  xlist_eqb (aq_finish xarith (qs_median xarith) (run xarith ex_five)) [Fin 3] = true /\
+  xeqb (am_finish xarith (run xarith ex_five)) (Fin 3) = true.
+Proof. split; vm_compute; reflexivity. Qed.
+
+(* ================================================================ exact-distinct helpers and
+   "exact below the sketch size" in terms of VALUES (not ranks) *)
+
+(* PCollection::distinct(): every distinct value exactly once, any partition count *)
+Theorem c15_distinct_rows_spec :
+  forall (T : Type) (veqb : T -> T -> bool), (forall x y, reflect (x = y) (veqb x y)) ->
+  forall (parts : nat) (rows : list T),
+    NoDup (distinct_rows veqb parts rows) /\
+    forall x, In x (distinct_rows veqb parts rows) <-> In x rows.
+Proof. exact (@distinct_rows_spec). Qed.
+
+Example c15_distinct_rows_spec_ex :
+  distinct_rows Z.eqb 3 [5; 7; 5; 9; 1; 3; 9; 4]%Z = [5; 7; 9; 1; 3; 4]%Z.
+Proof. reflexivity. Qed.
+
+(* PCollection::distinct_per_key(): for each key, every distinct value of that key once *)
+Theorem c15_distinct_per_key_rows_spec :
+  forall (T K : Type) (veqb : T -> T -> bool), (forall x y, reflect (x = y) (veqb x y)) ->
+  forall (keqb : K -> K -> bool), (forall a b, keqb a b = true <-> a = b) ->
+  forall (key : K) (parts : nat) (rows : list (K * T)),
+    NoDup (distinct_per_key_rows veqb keqb key parts rows) /\
+    forall x, In x (distinct_per_key_rows veqb keqb key parts rows) <-> In x (mine keqb key rows).
+Proof. exact (@distinct_per_key_rows_spec). Qed.
+
+Example c15_distinct_per_key_rows_spec_ex :
+  distinct_per_key_rows Z.eqb Z.eqb 1%Z 2 ex_rows = [5; 9; 3]%Z /\
+  distinct_per_key_rows Z.eqb Z.eqb 8%Z 2 ex_rows = [].
+Proof. split; reflexivity. Qed.
+
+(* THE PROPERTY'S SENTENCE "exact while the number of distinct values is below the sketch size":
+   if no two distinct values of the input share a rank (no 64-bit hash collision), then
+   approx_distinct_count(k) over the values' ranks is exactly the number of rows of distinct(),
+   as long as that number is below max(k, 4) -- any two partitionings *)
+Theorem c15_approx_count_is_distinct_count :
+  forall (T R : Type) (veqb : T -> T -> bool), (forall x y, reflect (x = y) (veqb x y)) ->
+  forall (ltb eqb : R -> R -> bool),
+    (forall a, ltb a a = false) ->
+    (forall a b c, ltb a b = true -> ltb b c = true -> ltb a c = true) ->
+    (forall a b, ltb a b = false -> ltb b a = false -> a = b) ->
+    (forall a b, eqb a b = true <-> a = b) ->
+  forall (rank : T -> R) (k parts parts' : nat) (rows : list T),
+    (forall x y, In x rows -> In y rows -> rank x = rank y -> x = y) ->
+    length (distinct_rows veqb parts' rows) < Nat.max k 4 ->
+    approx_distinct_count ltb eqb k parts (map rank rows)
+    = KCount (length (distinct_rows veqb parts' rows)).
+Proof. exact (@adc_counts_distinct_rows). Qed.
+
+(* ... and the same for the per-key twin against distinct_per_key() *)
+Theorem c15_approx_count_per_key_is_distinct_count :
+  forall (T K R : Type) (veqb : T -> T -> bool), (forall x y, reflect (x = y) (veqb x y)) ->
+  forall (keqb : K -> K -> bool), (forall a b, keqb a b = true <-> a = b) ->
+  forall (ltb eqb : R -> R -> bool),
+    (forall a, ltb a a = false) ->
+    (forall a b c, ltb a b = true -> ltb b c = true -> ltb a c = true) ->
+    (forall a b, ltb a b = false -> ltb b a = false -> a = b) ->
+    (forall a b, eqb a b = true <-> a = b) ->
+  forall (rank : T -> R) (k : nat) (key : K) (parts parts' : nat) (rows : list (K * T)),
+    In key (map fst rows) ->
+    (forall x y, In x (mine keqb key rows) -> In y (mine keqb key rows) -> rank x = rank y -> x = y) ->
+    length (distinct_per_key_rows veqb keqb key parts' rows) < Nat.max k 4 ->
+    approx_distinct_count_per_key ltb eqb keqb k key parts
+      (map (fun kv => (fst kv, rank (snd kv))) rows)
+    = Some (KCount (length (distinct_per_key_rows veqb keqb key parts' rows))).
+Proof. exact (@adck_counts_distinct_rows). Qed.
+
+(* ranks for the examples: an injective function of the value *)
+Definition ex_rank (x : Z) : Z := (1000 - 7 * x)%Z.
+
+Example c15_approx_count_is_distinct_count_ex :
+  (forall x y, ex_rank x = ex_rank y -> x = y) /\
+  length (distinct_rows Z.eqb 2 [5; 7; 5; 9; 1; 3; 9; 4]%Z) < Nat.max 8 4 /\
+  approx_distinct_count Z.ltb Z.eqb 8 3 (map ex_rank [5; 7; 5; 9; 1; 3; 9; 4]%Z) = KCount 6.
+Proof.
+  split; [unfold ex_rank; intros x y H; lia|]. split; [cbn; lia | reflexivity].
+Qed.
+
+Example c15_approx_count_per_key_is_distinct_count_ex :
+  In 1%Z (map fst ex_rows) /\
+  length (distinct_per_key_rows Z.eqb Z.eqb 1%Z 2 ex_rows) < Nat.max 4 4 /\
+  approx_distinct_count_per_key Z.ltb Z.eqb Z.eqb 4 1%Z 3
+    (map (fun kv => (fst kv, ex_rank (snd kv))) ex_rows) = Some (KCount 3).
+Proof. split; [left; reflexivity|]. split; [cbn; lia | reflexivity]. Qed.
